@@ -179,7 +179,44 @@ func topValue(f *ast.File, kind token.Token, name string) ast.Expr {
 	return found[0]
 }
 
+// constValue: what the only `const name = <value>` of parser.go (package level or inside a function) binds.
+func constValue(name string) (ast.Expr, bool) {
+	if parserFile == nil {
+		return nil, false
+	}
+	var found []ast.Expr
+	ast.Inspect(parserFile, func(n ast.Node) bool { // package level and function-local constants alike
+		gd, ok := n.(*ast.GenDecl)
+		if !ok || gd.Tok != token.CONST {
+			return true
+		}
+		for _, sp := range gd.Specs {
+			vs := sp.(*ast.ValueSpec)
+			for i, nm := range vs.Names {
+				if nm.Name == name && i < len(vs.Values) {
+					found = append(found, vs.Values[i])
+				}
+			}
+		}
+		return true
+	})
+	if len(found) != 1 {
+		return nil, false
+	}
+	return found[0], true
+}
+
 func intLit(e ast.Expr, what string) uint64 {
+	if p, ok := e.(*ast.ParenExpr); ok {
+		return intLit(p.X, what)
+	}
+	if id, ok := e.(*ast.Ident); ok {
+		if v, ok := constValue(id.Name); ok {
+			if _, again := v.(*ast.Ident); !again {
+				return intLit(v, what)
+			}
+		}
+	}
 	if b, ok := e.(*ast.BasicLit); ok && b.Kind == token.INT {
 		if v, err := strconv.ParseUint(b.Value, 0, 64); err == nil {
 			return v
